@@ -48,7 +48,7 @@ CONFIGS = [
     ('convex', 0.5, 600, 1.0), ('uniform', 2.0, 1200, 0.3),
 ]
 PERTURB = ['none', 'irregular-falls', 'pause-in-storm', 'gap',
-           'residual-rise']
+           'residual-rise', 'gap-early']
 A0 = 16
 
 
@@ -60,10 +60,10 @@ def decoy():
 
 def BOUND(tier):
     return {
-        'quick': 'words (S D)^2 x 5 perturbations on 6 configurations; '
+        'quick': 'words (S D)^2 x 6 perturbations on 6 configurations; '
                  '(S D)^3 on a coarse grid; all step sequences up to length '
                  '4 over 6 workflow steps',
-        'thorough': 'words (S D)^m, m<=3, x 5 perturbations on 6 '
+        'thorough': 'words (S D)^m, m<=3, x 6 perturbations on 6 '
                     'configurations; (S D)^3 on a coarse grid; all step '
                     'sequences up to length 5',
     }[tier]
@@ -204,9 +204,11 @@ def perturb(ds, how):
         for (first, _a, d) in ds['dries']:
             if d >= 2 and first + 1 < n:
                 level[first + 1] = level[first] + 0.15625
-    elif how == 'gap':
+    elif how in ('gap', 'gap-early'):
         if ds['dries']:
-            first, _a, d = ds['dries'][-1]
+            # the hole is in the last dry spell, or in the first one so that
+            # classified intervals follow it
+            first, _a, d = ds['dries'][-1 if how == 'gap' else 0]
             k = first + max(1, d // 2)
             if 0 < k < n - 1:
                 level[k] = None
@@ -340,6 +342,10 @@ def run_case(case):
         return run_sequence(case)
     shape, sy, dt, step = case['config']
     word = [tuple(ev) for ev in case['word']]
+    if case['perturb'] == 'gap-early':
+        # a closing storm, so that the record goes on after the last dry
+        # spell
+        word = word + [('S', 1, 2)]
     ds = events.build(word, shape, sy, dt, A0)
     if ds is None:
         return Result(nontrivial=False, outcome='outside-family',
